@@ -28,6 +28,7 @@ func cmdSelftest(args []string) int {
 	repo := fs.String("repo", "/repo", "repository")
 	verif := fs.String("verif", "/verif", "verif dir")
 	filter := fs.String("only", "", "mutant name substring")
+	propsF := fs.String("props", "", "only mutants of these properties")
 	par := fs.Int("j", 4, "parallel mutants")
 	verbose := fs.Bool("v", false, "verbose")
 	fs.Parse(args)
@@ -53,6 +54,9 @@ func cmdSelftest(args []string) int {
 	sem := make(chan struct{}, *par)
 	for _, m := range corpus {
 		if *filter != "" && !strings.Contains(m.Name, *filter) {
+			continue
+		}
+		if *propsF != "" && !intersects(m.Props, strings.Split(*propsF, ",")) {
 			continue
 		}
 		wg.Add(1)
